@@ -197,6 +197,8 @@ pub fn main_loop(f: impl Fn(&str, u32, usize, &[&str]) -> String) {
             Ok(s) => writeln!(out, "{}", s).unwrap(),
             Err(_) => writeln!(out, "Panic").unwrap(),
         }
+        // one result per line, flushed: the driver sees exactly which case is running (non-termination is located without bisection)
+        out.flush().unwrap();
     }
     out.flush().unwrap();
 }
